@@ -118,6 +118,22 @@ def main():
         if res["coverage"].get(act, (0, 0))[1] == 0:
             raise MachineryFailure("vacuous: action %s never taken" % act)
     # negative control: the variant that ignores `start` must be rejected
+    # unbounded: TLAPS proves the partition for EVERY number of processes
+    # and EVERY length (Starts, Contiguous, Ends, Balanced); TLC checks that
+    # the proved transcription and the model-checked one are the same
+    # functions; a transcription with one changed branch must be unprovable
+    ck.tlc("BlockRangesLink", "BlockRangesLink.cfg", count=False, workers=1)
+    proved, total = ck.tlaps("BlockRangesProof")
+    if proved != total or total < 40:
+        raise MachineryFailure("TLAPS: %d of %d obligations of "
+                               "BlockRangesProof proved" % (proved, total))
+    ck.note("TLAPS: all %d obligations of BlockRangesProof proved "
+            "(partition for every size and length)" % total)
+    if ck.thorough:
+        bad, tot = ck.tlaps("BlockRangesProof", mutate=(
+            "        ELSE base + rem\n\nN2", "        ELSE base + rem + 1\n\nN2"))
+        if bad == tot:
+            raise MachineryFailure("TLAPS proved a defective transcription")
     ck.tlc("BlockRanges", "BlockRanges_defect.cfg", count=False,
            expect_violation="PartitionHere")
     tmp = tempfile.mkdtemp(prefix="c20_")
